@@ -57,7 +57,8 @@ class ServerConn:
         self.server = server
         self.parser = wire.Parser()
         self.out = []          # [bytearray, owner_call, cmd_index]
-        self.peer_closed = False
+        self.peer_closed = False   # server closed its end: reads hit end-of-stream once drained
+        self.silent = False        # server stopped answering: reads time out once drained
         self.cmds_seen = 0
 
     def pending(self):
@@ -90,6 +91,7 @@ class ServerConn:
                     cut = max(0, min(len(full) - 1, rf[1] if rf[1] >= 0 else len(full) + rf[1]))
                     rep = full[:cut]
                     self.peer_closed = rf[2] if len(rf) > 2 else True
+                    self.silent = not self.peer_closed
                     if rep:
                         self.out.append([bytearray(rep), net.call_id, idx])
                     net.units.append((net.call_id, idx, len(rep)))
@@ -98,6 +100,8 @@ class ServerConn:
                     raise ValueError(rf)
             if rep:
                 self.out.append([bytearray(rep), net.call_id, idx])
+                if rf is None and rep.startswith((b"ERROR", b"CLIENT_ERROR", b"SERVER_ERROR")):
+                    net.err_replies += 1
             net.units.append((net.call_id, idx, len(rep)))
 
 
@@ -170,7 +174,9 @@ class FakeSocket:
             raise OSError(errno.ENOTCONN, "not connected")
         f = self._fault("sendall")
         n0 = self.net.cmd_counter
-        if f is None:
+        e0 = self.net.err_replies
+        if f is None or f in INTERRUPTS:
+            # an asynchronous interrupt surfaces when the call returns: the bytes are already out
             self.net.wire_log.append((self.sid, bytes(data)))
             self.conn.receive(bytes(data))
         elif f == "partial":
@@ -180,9 +186,10 @@ class FakeSocket:
         new = self.net.sent_cmds[len(self.net.sent_cmds) - (self.net.cmd_counter - n0):] if self.net.cmd_counter > n0 else []
         nrep = sum(1 for c in new if "error" in c or not c.get("noreply"))
         self._ev("send", c=self.net.call_id, tmo=self.tmo, n=len(data), ncmd=self.net.cmd_counter - n0,
-                 nrep=nrep, fault=f or "none")
+                 nrep=nrep, nerr=self.net.err_replies - e0, fault=f or "none")
         if f:
-            self.faulted = True
+            if f not in INTERRUPTS:
+                self.faulted = True
             raise make_exc("timeout" if f == "partial" else f)
 
     def send(self, data):
@@ -213,6 +220,10 @@ class FakeSocket:
                 self.faulted = True
                 self._ev("recv", c=self.net.call_id, tmo=self.tmo, n=0, own=[], fault="eof")
                 return b""
+            if conn.silent:
+                self.faulted = True
+                self._ev("recv", c=self.net.call_id, tmo=self.tmo, n=0, own=[], fault="timeout")
+                raise make_exc("timeout")
             self._ev("recv", c=self.net.call_id, tmo=self.tmo, n=0, own=[], fault="wouldblock")
             raise WouldBlockForever(f"recv on socket {self.sid} with nothing to read")
         want = min(size, self.net.next_piece(conn.pending()))
@@ -292,6 +303,7 @@ class FakeNet:
         self.units = []
         self.segmentation = "all"
         self.seg_state = 0
+        self.err_replies = 0
 
     # -- configuration --
     def add_server(self, key, server=None, addrs=None):
